@@ -55,12 +55,16 @@ class LoginPage(HTMLHandlerBase):
 
     def post(self) -> flask.Response:
         data: JsonObject = flask.request.json
+        if not isinstance(data, dict):
+            data = {}
         username: str | None = data.get("username", None)
         password: str | None = data.get("password", None)
         rememberme: bool = data.get("rememberme", False)
-        user: User | None = User.get_one(username=username)
-        if not user:
-            user = User.get_one(email=username)
+        user: User | None = None
+        if isinstance(username, str) and isinstance(password, str):
+            user = User.get_one(username=username)
+            if not user:
+                user = User.get_one(email=username)
         if user is None or not user.check_password(password):
             csrf_key: str = self.generate_csrf_cookie()
             result: LoginResponseJson = {
